@@ -54,7 +54,6 @@
 ; ---- paths: joining with a valid component is injective and never yields the parent
 (assert (forall ((a Bytes) (b Bytes) (c Bytes) (d Bytes)) (! (=> (and (= (pjoin a b) (pjoin c d)) (validName b) (validName d)) (and (= a c) (= b d))) :pattern ((pjoin a b) (pjoin c d)))))
 (assert (forall ((a Bytes) (b Bytes)) (! (=> (validName b) (not (= (pjoin a b) a))) :pattern ((pjoin a b)))))
-(assert (forall ((s Bytes)) (! (=> (validName s) (and (> (blen s) 0) (not (contains s (byte1 47))))) :pattern ((validName s)))))
 (assert (forall ((h Bytes) (i Int) (j Int)) (! (=> (and (<= 0 i) (< i j) (<= j (blen (hex h)))) (validName (bsub (hex h) i j))) :pattern ((bsub (hex h) i j)))))
 ; ---- zlib and sha1 (assumed contracts of compress/zlib and crypto/sha1)
 (assert (forall ((x Bytes)) (! (and (= (zlibDec (zlibEnc x)) x) (validZlib (zlibEnc x))) :pattern ((zlibEnc x)))))
@@ -69,7 +68,7 @@
 ; L-snoc: extending a slice by the next byte
 (assert (forall ((s Bytes) (i Int) (j Int)) (! (=> (and (<= 0 i) (<= i j) (< j (blen s))) (= (bcat (bsub s i j) (byte1 (bat s j))) (bsub s i (+ j 1)))) :pattern ((bcat (bsub s i j) (byte1 (bat s j)))))))
 ; L-sub-sub
-(assert (forall ((s Bytes) (i Int) (j Int) (k Int) (l Int)) (! (=> (and (<= 0 i) (<= i j) (<= j (blen s)) (<= 0 k) (<= k l) (<= l (- j i))) (= (bsub (bsub s i j) k l) (bsub s (+ i k) (+ i l)))) :pattern ((bsub (bsub s i j) k l)))))
+(assert (forall ((s Bytes) (i Int) (j Int) (k Int) (l Int)) (! (=> (and (<= 0 i) (<= i j) (<= j (blen s)) (<= 0 k) (<= k l) (<= l (- j i)) (< (- j i) (blen s))) (= (bsub (bsub s i j) k l) (bsub s (+ i k) (+ i l)))) :pattern ((bsub (bsub s i j) k l)))))
 ; L-sub-empty
 (assert (forall ((s Bytes) (i Int)) (! (=> (and (<= 0 i) (<= i (blen s))) (= (bsub s i i) bempty)) :pattern ((bsub s i i)))))
 ; L-sub-cat: a slice splits at any interior point
@@ -104,3 +103,6 @@
 (assert (forall ((s Bytes) (p Bytes)) (! (=> (not (contains s p)) (and (= (slen (splitAll s p)) 1) (= (select (selems (splitAll s p)) 0) s))) :pattern ((splitAll s p)))))
 (assert (forall ((s Bytes) (p Bytes)) (! (=> (and (contains s p) (> (blen p) 0)) (and (= (select (selems (splitAll s p)) 0) (splitHead s p)) (= (slen (splitAll s p)) (+ 1 (slen (splitAll (splitTail s p) p)))))) :pattern ((splitAll s p)))))
 (assert (forall ((s Bytes) (p Bytes) (i Int)) (! (=> (and (contains s p) (> (blen p) 0) (<= 1 i) (< i (slen (splitAll s p)))) (= (select (selems (splitAll s p)) i) (select (selems (splitAll (splitTail s p) p)) (- i 1)))) :pattern ((select (selems (splitAll s p)) i)))))
+(assert (forall ((s Bytes) (i Int) (j Int) (c Int)) (! (=> (and (noByte s c) (<= 0 i) (<= i j) (<= j (blen s))) (noByte (bsub s i j) c)) :pattern ((noByte (bsub s i j) c)))))
+; validName(s): a path component: non-empty, no '/', no NUL, not "." or ".."
+(assert (forall ((s Bytes)) (! (= (validName s) (and (> (blen s) 0) (noByte s 47) (noByte s 0) (not (= s (byte1 46))) (not (= s (bcat (byte1 46) (byte1 46)))))) :pattern ((validName s)))))
